@@ -111,6 +111,6 @@ WmlInv(wml) == [j \in 1..Len(wml) |-> InvLine(wml[j])]
 \* line by line, what the conversion keeps (everything but trailing white space) comes back
 WmlExpected(lines) == [j \in 1..Len(lines) |-> Merge(RStripRuns(lines[j]))]
 WmlInvertible(lines, wml) == Len(wml) = Len(lines) /\ [j \in 1..Len(wml) |-> Merge(InvLine(wml[j]))] = WmlExpected(lines)
-\* the escaped text never contains a raw markup character
-WmlClean(wml) == \A j \in 1..Len(wml) : \A i \in 1..Len(wml[j]) : wml[j][i].c \notin {"LT", "GT", "AMP", "QUOT", "APOS"}
+\* the converted text never contains a raw "<" or "&": what makes the inverse unambiguous
+WmlClean(wml) == \A j \in 1..Len(wml) : \A i \in 1..Len(wml[j]) : wml[j][i].c \notin {"LT", "AMP"}
 =============================================================================
